@@ -118,7 +118,7 @@ func init() {
 			rc.Extra["commands"] = names
 			for _, c := range names {
 				if rc.Tier == "thorough" {
-					js = append(js, JobSpec{Set: "redis", Fn: "HarnessC03Pipeline", Params: p("cmd", c, "maxargs", "4", "maxlen", "2", "kw", "1", "unwind", "256"), Split: 3})
+					js = append(js, JobSpec{Set: "redis", Fn: "HarnessC03Pipeline", Params: p("cmd", c, "maxargs", "3", "maxlen", "2", "kw", "1", "unwind", "256"), Split: 3})
 					js = append(js, JobSpec{Set: "redis", Fn: "HarnessC03Pipeline", Params: p("cmd", c, "maxargs", "2", "maxlen", "2", "shape", "quit", "chunked", "1", "unwind", "256"), Split: 3})
 					js = append(js, JobSpec{Set: "redis", Fn: "HarnessC03Pipeline", Params: p("cmd", c, "maxargs", "0", "shape", "quit", "chunked", "2", "unwind", "256"), Split: 4})
 				} else {
@@ -142,7 +142,7 @@ func init() {
 		RequiredCovers:  map[string][]string{"HarnessC03Pipeline": {"end", "quit", "ping-answered", "handler-called", "repeat"}, "HarnessC03Stateful": {"end"}},
 		Bounds: func(tier string) map[string]interface{} {
 			if tier == "thorough" {
-				return map[string]interface{}{"pipeline": "[cmd args] PING and [cmd args] QUIT PING", "commands": "every registered executor (read from the SSA of the current tree)", "args": "<=4 arguments, each any byte string of length 0..2 or a long option keyword", "handler_results": "status, integer, bulk, null, array, empty array, error", "chunking": "quit pipelines: every two-segment split; bare command + QUIT + PING: every partition into reads", "unwind": 256}
+				return map[string]interface{}{"pipeline": "[cmd args] PING and [cmd args] QUIT PING", "commands": "every registered executor (read from the SSA of the current tree)", "args": "<=3 arguments, each any byte string of length 0..2 or a long option keyword", "handler_results": "status, integer, bulk, null, array, empty array, error", "chunking": "quit pipelines: every two-segment split; bare command + QUIT + PING: every partition into reads", "unwind": 256}
 			}
 			return map[string]interface{}{"pipeline": "[cmd args] PING and [cmd args] QUIT PING", "commands": "every registered executor (read from the SSA of the current tree)", "args": "<=3 arguments, each any byte string of length 0..2", "handler_results": "status, integer, bulk, null, array, empty array, error", "chunking": "quit pipelines: every two-segment split of the stream", "unwind": 256}
 		},
@@ -163,7 +163,7 @@ func init() {
 			rc.Extra["commands"] = names
 			ma, ml := "2", "2"
 			if rc.Tier == "thorough" {
-				ma, ml = "3", "3"
+				ma, ml = "3", "2"
 			}
 			for _, c := range names {
 				js = append(js, JobSpec{Set: "redis", Fn: "HarnessC04Reply", Params: p("cmd", c, "maxargs", ma, "maxlen", ml), Split: 3})
@@ -179,7 +179,7 @@ func init() {
 			if tier == "thorough" {
 				n = 3
 			}
-			return map[string]interface{}{"request": "[name args...] PING; every registered command and arbitrary 0..4-byte names", "args": n, "arg_bytes": "0.." + string(rune('0'+n)) + " bytes, all 256 values (CR, LF, type bytes included)", "handler_results": "14 shapes: all five message types with arbitrary payload bytes, null, arrays (odd, nested, absent element), nil message, error with arbitrary text, message+error", "non_array_requests": "11 shapes: every top-level type, null/empty/nested/absent first element", "example_store": "GET/HGET of stored values with arbitrary bytes"}
+			return map[string]interface{}{"request": "[name args...] PING; every registered command and arbitrary 0..4-byte names", "args": n, "arg_bytes": "0..2 bytes, all 256 values (CR, LF, type bytes included)", "handler_results": "14 shapes: all five message types with arbitrary payload bytes, null, arrays (odd, nested, absent element), nil message, error with arbitrary text, message+error", "non_array_requests": "11 shapes: every top-level type, null/empty/nested/absent first element", "example_store": "GET/HGET of stored values with arbitrary bytes"}
 		},
 		Assumptions: append(append([]string{"the oracle is the harness's own strict RESP2 reader over the raw bytes written to the connection"}, connLoopAssumptions...), commonAssumptions...),
 		Outside:     []string{"payloads longer than the bound", "handlers that panic"},
@@ -217,7 +217,16 @@ func init() {
 			for _, c := range names {
 				js = append(js, JobSpec{Set: "server", Fn: "HarnessC07Store", Params: p("cmd", c, "maxargs", sa, "maxelems", me, "fixednow", "1"), Split: 4})
 			}
-			for _, t := range []string{"LRANGE", "LINDEX", "LPOP", "RPOP", "GETRANGE", "SUBSTR", "ZRANGE", "ZRANGE-REV", "ZRANGE-LIMIT", "ZRANGE-BYSCORE", "ZREVRANGE", "ZRANGEBYSCORE", "ZREVRANGEBYSCORE", "SCAN", "SETEX", "EXPIRE", "INCRBY", "DECRBY", "SELECT"} {
+			tmpls := []string{"LRANGE", "LINDEX", "LPOP", "RPOP", "GETRANGE", "SUBSTR", "ZRANGE", "ZRANGE-REV", "ZRANGE-LIMIT", "ZRANGE-BYSCORE", "ZREVRANGE", "ZRANGEBYSCORE", "ZREVRANGEBYSCORE", "SCAN", "SETEX", "EXPIRE", "INCRBY", "DECRBY", "SELECT"}
+			if rc.Tier != "thorough" {
+				// quick: the score bounds of the three BYSCORE templates come from three tokens (the index arithmetic is in LIMIT)
+				for i, t := range tmpls {
+					if strings.HasSuffix(t, "BYSCORE") {
+						tmpls[i] = t + "-Q"
+					}
+				}
+			}
+			for _, t := range tmpls {
 				js = append(js, JobSpec{Set: "server", Fn: "HarnessC07Index", Params: p("tmpl", t, "maxelems", me, "fixednow", "1", "fewbounds", fb, "maxdigits", md), Split: 5, Timeout: 15 * time.Minute})
 			}
 			return js
@@ -226,7 +235,7 @@ func init() {
 		RequiredCovers:  map[string][]string{"HarnessC04Reply": {"end"}, "HarnessC07Stream": {"end"}, "HarnessC07Store": {"end"}, "HarnessC07Index": {"end"}, "HarnessC03Pipeline": {"end"}, "HarnessC07Witness": {"end", "garbage", "cut", "reset", "write-failure"}},
 		EngineOnly:      map[string]bool{"HarnessC07Witness": true},
 		Bounds: func(tier string) map[string]interface{} {
-			return map[string]interface{}{"framework": "every registered command x <=1 (thorough 3) arguments, each any 0..1-byte string or one of 15 boundary integer tokens (0, +-1, +-2^31, 2^63-2, 2^63-1, -2^63, out-of-range, fractional), handler returning any of 7 result shapes (the 14-shape space incl. nil results is C04)", "byte_streams": "every byte string up to 6 (thorough 8) bytes through the connection loop", "scan_match": "SCAN 0 MATCH p for every p of <=3 (thorough 4) arbitrary bytes (invalid UTF-8 decided exactly)", "witness": "offender sending one request of GET/ZADD/SCAN/CONFIG/QUIT/an unknown command (thorough: every command) with <=1 arbitrary 0..1-byte argument and then behaving (close at the boundary) or misbehaving (1 garbage byte, FIN or RST at every offset, not reading replies), concurrently with a witness doing ECHO/GET/PING on the real accept loop (stub network), every non-preemptive interleaving (thorough: <=1 preemption for the six commands); then a late client", "example_store": "every command with <=1 (thorough 3) loose arguments, and 19 index/count/LIMIT templates (LRANGE, LINDEX, LPOP, RPOP, GETRANGE, SUBSTR, ZRANGE incl. REV/LIMIT/BYSCORE, ZREVRANGE, Z(REV)RANGEBYSCORE LIMIT, SCAN COUNT, SETEX, EXPIRE, INCRBY, DECRBY, SELECT) whose integers are 6 (thorough 15) boundary tokens or sign + 1 (thorough 2) symbolic digits, against key k absent or holding a string/list/set/zset/hash of <=2 (thorough 3) symbolic elements; clock concrete"}
+			return map[string]interface{}{"framework": "every registered command x <=1 (thorough 3) arguments, each any 0..1-byte string or one of 15 boundary integer tokens (0, +-1, +-2^31, 2^63-2, 2^63-1, -2^63, out-of-range, fractional), handler returning any of 7 result shapes (the 14-shape space incl. nil results is C04)", "byte_streams": "every byte string up to 6 (thorough 8) bytes through the connection loop", "scan_match": "SCAN 0 MATCH p for every p of <=3 (thorough 4) arbitrary bytes (invalid UTF-8 decided exactly)", "witness": "offender sending one request of GET/ZADD/SCAN/CONFIG/QUIT/an unknown command (thorough: every command) with <=1 arbitrary 0..1-byte argument and then behaving (close at the boundary) or misbehaving (1 garbage byte, FIN or RST at every offset, not reading replies), concurrently with a witness doing ECHO/GET/PING on the real accept loop (stub network), every non-preemptive interleaving (thorough: <=1 preemption for the six commands); then a late client", "example_store": "every command with <=1 (thorough 3) loose arguments, and 19 index/count/LIMIT templates (LRANGE, LINDEX, LPOP, RPOP, GETRANGE, SUBSTR, ZRANGE incl. REV/LIMIT/BYSCORE, ZREVRANGE, Z(REV)RANGEBYSCORE LIMIT, SCAN COUNT, SETEX, EXPIRE, INCRBY, DECRBY, SELECT) whose integers are 6 (thorough 15) boundary tokens or sign + 1 (thorough 2) symbolic digits (quick: the score bounds of the three BYSCORE templates are one of 0, 2, -1), against key k absent or holding a string/list/set/zset/hash of <=2 (thorough 3) symbolic elements; clock concrete"}
 		},
 		Assumptions: append(append([]string{
 			"reduction: an unrecovered panic, fatal error or attacker-sized allocation in the connection goroutine terminates the process and with it every client; cross-connection interference through shared state is C13/C14/C16",
@@ -382,7 +391,7 @@ func init() {
 			if rc.Tier == "thorough" {
 				return []JobSpec{
 					{Set: "redis", Fn: "HarnessC13Conns", Params: p("requests", "2", "preempt", "2", "requirepass", "1"), Split: 12, Overrides: netOverrides},
-					{Set: "redis", Fn: "HarnessC13Conns", Params: p("requests", "3", "preempt", "1", "requirepass", "0"), Split: 12, Overrides: netOverrides},
+					{Set: "redis", Fn: "HarnessC13Conns", Params: p("requests", "2", "preempt", "2", "requirepass", "0"), Split: 12, Overrides: netOverrides},
 					{Set: "redis", Fn: "HarnessC13Conns", Params: p("requests", "3", "preempt", "1", "requirepass", "1"), Split: 12, Overrides: netOverrides},
 					{Set: "redis", Fn: "HarnessC13Select", Params: p(), Split: 3},
 				}
@@ -395,7 +404,7 @@ func init() {
 		},
 		RequiredCovers: map[string][]string{"HarnessC13Conns": {"end"}, "HarnessC13Select": {"end", "select-accepted", "select-refused"}},
 		Bounds: func(tier string) map[string]interface{} {
-			return map[string]interface{}{"connections": 2, "requests_per_connection": "2 (thorough also 3)", "request_alphabet": "SELECT d (symbolic digit) | AUTH right | AUTH wrong | GET | USET v (per-connection user data in the connection's sync.Map) | UGET", "schedules": "all interleavings of the two connection goroutines at transport reads and synchronisation operations with at most 1 (thorough 2) preemptive context switches", "requirepass": "with and without", "successor": "after both connections have gone a third connection is served: it must start from the defaults (database 0, no user data, unauthorised when a password is required)", "select_tokens": "one connection: SELECT t1, GET, select t2, GET, SELECT (no argument), GET with t1,t2 any 1..2-byte token or one of 11 boundary tokens: the database seen by the handler changes only with a SELECT answered +OK"}
+			return map[string]interface{}{"connections": 2, "requests_per_connection": "2 (thorough also 3 with a password required)", "request_alphabet": "SELECT d (symbolic digit) | AUTH right | AUTH wrong | GET | USET v (per-connection user data in the connection's sync.Map) | UGET", "schedules": "all interleavings of the two connection goroutines at transport reads and synchronisation operations with at most 1 (thorough 2) preemptive context switches", "requirepass": "with and without", "successor": "after both connections have gone a third connection is served: it must start from the defaults (database 0, no user data, unauthorised when a password is required)", "select_tokens": "one connection: SELECT t1, GET, select t2, GET, SELECT (no argument), GET with t1,t2 any 1..2-byte token or one of 11 boundary tokens: the database seen by the handler changes only with a SELECT answered +OK"}
 		},
 		Assumptions: append(append([]string{"goroutines are scheduled by the engine at Read calls of the scripted connections and at every mutex / sync.Map / atomic operation; preemption between two plain memory accesses is outside the bound (data races are C14)"}, connLoopAssumptions...), commonAssumptions...),
 		Outside:     []string{"more than two connections, more context switches"},
@@ -547,17 +556,26 @@ func init() {
 				}
 			}
 			// every registered command against itself (two connections, different arguments)
-			for _, c := range CommandNames(rc.Ld) {
+			names := CommandNames(rc.Ld)
+			for _, c := range names {
 				js = append(js, JobSpec{Set: "redis", Fn: "HarnessC14Pair", Params: p("a", "cmd:0:"+c, "b", "cmd:1:"+c, "preempt", pre, "withpass", "0"), Overrides: netOverrides})
+			}
+			if rc.Tier == "thorough" {
+				// every pair of two different registered commands (state shared between command families), one preemption
+				for i, c := range names {
+					for _, d := range names[i+1:] {
+						js = append(js, JobSpec{Set: "redis", Fn: "HarnessC14Pair", Params: p("a", "cmd:0:"+c, "b", "cmd:1:"+d, "preempt", "1", "withpass", "0"), Overrides: netOverrides})
+					}
+				}
 			}
 			return js
 		},
 		RequiredCovers: map[string][]string{"HarnessC14Pair": {"end"}},
 		Bounds: func(tier string) map[string]interface{} {
-			return map[string]interface{}{"goroutines": 2, "entries": "every unordered pair (incl. twice the same) of: a connection executing CONFIG SET / CONFIG GET / CONFIG SET requirepass / PING / ping / SELECT / AUTH / GET / QUIT, a bare connect+disconnect, Conns(), ConnByUUID(), AddAuthenticator(), SetRequirePass(), Stop(), Restart()+Stop(); with and without a configured password where it matters", "schedules": "all interleavings at synchronisation operations with <=1 (thorough 2) preemptions", "detector": "vector clocks per goroutine and per memory cell / map (FastTrack style); happens-before from go statements, sync.Mutex/RWMutex, sync.Map, sync/atomic, WaitGroup"}
+			return map[string]interface{}{"goroutines": 2, "commands": "every registered command against itself on two connections with different canned arguments (thorough: also every pair of two different commands, 1 preemption)", "entries": "every unordered pair (incl. twice the same) of: a connection executing CONFIG SET / CONFIG GET / CONFIG SET requirepass / PING / ping / SELECT / AUTH / GET / QUIT, a bare connect+disconnect, Conns(), ConnByUUID(), AddAuthenticator(), SetRequirePass(), Stop(), Restart()+Stop(), password rotation (SetRequirePass()+Restart()+Stop()); with and without a configured password where it matters", "schedules": "all interleavings at synchronisation operations with <=1 (thorough 2) preemptions", "detector": "vector clocks per goroutine and per memory cell / map (FastTrack style); happens-before from go statements, sync.Mutex/RWMutex, sync.Map, sync/atomic, WaitGroup"}
 		},
 		Assumptions: append([]string{
-			"a race candidate found by the engine is reported only after the same harness, run natively under `go test -race` (up to 12 attempts, private network namespace), reports a data race too",
+			"a race candidate found by the engine is reported only after the same harness, run natively under `go test -race` (up to 12 attempts, private network namespace; natively each entry is repeated 60 times so that the window between the two accesses is hit), reports a data race too",
 			"two concurrent lifecycle calls (Stop||Restart) are not part of the workload; races inside application handlers and inside the Go runtime are outside the claim",
 			"preemption points are synchronisation operations; a race is an unordered pair of accesses, so it is detected on any schedule on which both accesses occur, whether or not they overlap in time",
 		}, commonAssumptions...),
@@ -623,12 +641,29 @@ func init() {
 					js = append(js, JobSpec{Set: "server", Fn: "HarnessC16Store", Params: p("a", a, "b", b, "preempt", pre, "fixednow", "1")})
 				}
 			}
+			// collection commands of the example store: every pair within one data type, on the same key
+			cpre := "2"
+			if rc.Tier == "thorough" {
+				cpre = "3"
+			}
+			for _, fam := range [][]string{
+				{"LPUSHa", "LPUSHb", "RPUSHc", "LPOP", "RPOP", "LLEN"},
+				{"HSETf", "HSETg", "HSETf2", "HDELf", "HLEN", "HGETf"},
+				{"SADDa", "SADDb", "SREMa", "SCARD"},
+				{"ZADD1a", "ZADD2b", "ZADD3a", "ZREMa", "ZCARD"},
+			} {
+				for i, a := range fam {
+					for _, b := range fam[i:] {
+						js = append(js, JobSpec{Set: "server", Fn: "HarnessC16Coll", Params: p("a", a, "b", b, "preempt", cpre, "fixednow", "1")})
+					}
+				}
+			}
 			return js
 		},
-		EngineOnly:     map[string]bool{"HarnessC16Atomic": true, "HarnessC16Store": true},
-		RequiredCovers: map[string][]string{"HarnessC16Atomic": {"end"}, "HarnessC16Store": {"end"}},
+		EngineOnly:     map[string]bool{"HarnessC16Atomic": true, "HarnessC16Store": true, "HarnessC16Coll": true},
+		RequiredCovers: map[string][]string{"HarnessC16Atomic": {"end"}, "HarnessC16Store": {"end"}, "HarnessC16Coll": {"end"}},
 		Bounds: func(tier string) map[string]interface{} {
-			return map[string]interface{}{"clients": 2, "commands_per_client": 1, "command_pairs": "every unordered pair from GET k, SET k, SETNX k (two values), GETSET k, INCR k, DECRBY k 3, APPEND k, MSETNX k j, DEL k, GET j", "initial_store": "k absent | \"5\" | \"x\"", "interleavings": "reference store: all interleavings at handler-operation boundaries; example store: all interleavings at its sync.Map operations; <=2 (thorough 4) preemptions", "oracle": "replies and final store equal those of A;B or of B;A under the harness's Redis model"}
+			return map[string]interface{}{"clients": 2, "commands_per_client": 1, "command_pairs": "every unordered pair from GET k, SET k, SETNX k (two values), GETSET k, INCR k, DECRBY k 3, APPEND k, MSETNX k j, DEL k, GET j", "initial_store": "k absent | \"5\" | \"x\"", "collections": "example store: every unordered pair (incl. twice the same) within LPUSH a|LPUSH b|RPUSH c|LPOP|RPOP|LLEN on one list, HSET f|HSET g|HSET f (other value)|HDEL f|HLEN|HGET f on one hash, SADD a|SADD b|SREM a|SCARD on one set, ZADD 1 a|ZADD 2 b|ZADD 3 a|ZREM a|ZCARD on one sorted set; each collection initially absent or holding one element; <=2 (thorough 3) preemptions", "interleavings": "reference store: all interleavings at handler-operation boundaries; example store: all interleavings at its sync.Map operations, at its lock operations and at plain stores to memory another goroutine has touched; <=2 (thorough 4) preemptions", "oracle": "replies and final store equal those of A;B or of B;A under the harness's Redis model"}
 		},
 		Assumptions: append([]string{
 			"with two clients issuing one command each, linearizability is: the observed (replies, final state) equal one of the two sequential orders",
